@@ -23,9 +23,9 @@ pub fn typed_cfg(ctx: &Ctx, prop: &str) -> TypedCfg {
     cfg
 }
 
-pub fn run_one(s: &mut dyn Src, tcfg: &TypedCfg, quirks: Quirks, known: &[&str]) -> Case {
+pub fn run_one(s: &mut dyn Src, tcfg: &TypedCfg, null_leaves: bool, quirks: Quirks, known: &[&str]) -> Case {
     let sch = gen_sch(s, &SchCfg::default());
-    let world = gen_world(&sch, s, &WorldCfg { null_composite_items: false, ..WorldCfg::default() });
+    let world = gen_world(&sch, s, &WorldCfg { null_composite_items: false, null_for_nonnull_leaves: null_leaves, ..WorldCfg::default() });
     let mut td = gen_typed_doc(&sch, s, tcfg);
     let text = print_plain(&mut td.doc);
     let rendered = format!("schema: {}\nworld: {}\nquery: {}\nvariables: {}", show_sch(&sch), world.show(), text, vars_json(&td.vars));
@@ -69,12 +69,16 @@ pub fn run_one(s: &mut dyn Src, tcfg: &TypedCfg, quirks: Quirks, known: &[&str])
         .class_if(st.repeated_keys > 0, "repeated-key")
         .class_if(st.vars > 0, "variables")
         .class_if(sch.mutation.is_some(), "schema-with-mutation")
+        .class_if(world.plain_leaf_lists, "lists-as-plain-value")
+        .class_if(want.errors.iter().any(|e| e.what.contains("null for non-null")), "resolver-null-at-non-null-leaf")
+        .class_if(want.errors.iter().any(|e| e.what.contains("null for non-null") && matches!(e.path.last(), Some(vgql::refexec::Seg::Idx(_)))), "null-item-in-non-null-item-list")
 }
 
 pub fn run(ctx: &mut Ctx) {
     ctx.rule = "random dynamic type systems (<=12 types: objects, interfaces incl. inheritance, unions, enums, custom scalar, input objects incl. oneOf), data worlds valid for \
                 them, and type-directed valid documents with variables; response compared with the reference executor (data exactly, errors by path+location). Non-trivial = \
                 a fragment with a type condition, a repeated response key, or a variable-driven @skip/@include; distinct by rendered (schema, world, query, variables)".into();
+    ctx.note("value_domain", serde_json::json!("resolvers may yield null for a non-null leaf (a field or a list item; the non-null clause of the property) and hand lists of leaves over either as FieldValue::list or as one plain Value::List"));
     ctx.assume("resolvers return values valid for the declared type (built-in scalars are not checked by the dynamic API, so only type-correct values are generated); invalid enum / custom scalar values are C03's fault class");
     ctx.assume("null items inside lists of object/interface/union type are not generated: the dynamic API has no way to return them (FieldValue::NULL at an object position is an object with a null parent value, as the crate's own tests use it)");
     ctx.assume("documents are valid by construction (generator), not filtered by async-graphql's validator");
@@ -88,7 +92,16 @@ pub fn run(ctx: &mut Ctx) {
     }
     let mut ops_cfg = main_cfg.clone();
     ops_cfg.ops = vec![vgql::ast::OpKind::Query, vgql::ast::OpKind::Mutation];
-    ctx.stream("dynamic", n, 600, |s| run_one(s, &ops_cfg, Quirks::default(), &[]));
+    ctx.stream("dynamic", n, 600, |s| run_one(s, &ops_cfg, false, Quirks::default(), &[]));
+    // resolvers that yield null for non-null leaves (fields and list items): the non-null clause. While C04-F1 is open
+    // (each occurrence of a repeated response key is executed on its own and the results are merged, so a null
+    // propagated to the field by one occurrence is overwritten by the object of another) repeated keys are left out here.
+    let mut nn_cfg = ops_cfg.clone();
+    if ctx.open("C04-F1") {
+        nn_cfg.repeats = false;
+        ctx.excluded("C04-F1");
+    }
+    ctx.stream("dynamic-null-for-non-null", n / 2, 600, |s| run_one(s, &nn_cfg, true, Quirks::default(), &[]));
     // probe stream: constructs of the open findings enabled, deviations must match their quirks exactly
     let f1 = ctx.open("C02-F1");
     if f1 {
@@ -96,6 +109,6 @@ pub fn run(ctx: &mut Ctx) {
         pcfg.defaulted_directive_vars = main_cfg.defaulted_directive_vars;
         pcfg.omitted_var_with_arg_default = main_cfg.omitted_var_with_arg_default;
         let q = Quirks { union_condition_in_object_dropped: true, ..Quirks::default() };
-        ctx.stream("probe-union-condition", n / 8, 600, |s| run_one(s, &pcfg, q, &["C02-F1"]));
+        ctx.stream("probe-union-condition", n / 8, 600, |s| run_one(s, &pcfg, false, q, &["C02-F1"]));
     }
 }
